@@ -67,12 +67,15 @@ def run_case(case):
         return "?"
 
     def snapshot(op, outcome, ret):
-        cur = HandlerCollection.current.get()
-        items = []
-        if cur is not None:
-            for sel, acc in cur.handler_pairs:
-                items.append(roots[id(sel)] if id(sel) in roots else "K" + owner_of(sel, acc))
-        steps.append({"op": op, "outcome": outcome, "ret": ret if isinstance(ret, int) else -2, "cur": items,
+        items, seen = [], True
+        try:
+            cur = HandlerCollection.current.get()
+            if cur is not None:
+                for sel, acc in cur.handler_pairs:
+                    items.append(roots[id(sel)] if id(sel) in roots else "K" + owner_of(sel, acc))
+        except AttributeError:
+            items, seen = [], False          # this tree keeps its handlers elsewhere: only the deliveries are judged
+        steps.append({"op": op, "outcome": outcome, "ret": ret if isinstance(ret, int) else -2, "cur": items, "curseen": seen,
                       "recv": {k: list(v) for k, v in recv.items()}, "late": {k: len(v) for k, v in late.items()}})
 
     def do(op):
